@@ -46,6 +46,9 @@ namespace
     {
         long k = 0, evals = 0, after = 0;
         bool fired = false;
+        std::atomic<long> *validCalls = nullptr;
+        long *validAtFire = nullptr;
+        double cpuBudget = 1e9;
         ob::PlannerTerminationCondition make()
         {
             return ob::PlannerTerminationCondition([this] {
@@ -55,9 +58,13 @@ namespace
                         throw StopSolve();
                     return true;
                 }
+                if ((evals & 31) == 31 && world::cpuSeconds() > cpuBudget)
+                    throw world::BudgetExhausted();
                 if (evals++ >= k)
                 {
                     fired = true;
+                    if (validCalls && validAtFire)
+                        *validAtFire = validCalls->load();
                     return true;
                 }
                 return false;
@@ -208,12 +215,14 @@ namespace
     };
 
     // nq queries on one world; goal types restricted by what the planner recognises
-    GenWorld genWorld(sim::Rng &g, const Specs &sp, int nq, bool allowInvalidStarts)
+    GenWorld genWorld(sim::Rng &g, const std::string &planner, const Specs &sp, int nq, bool allowInvalidStarts)
     {
         GenWorld G;
         Json w = Json::object();
         static const char *spaces[] = {"rv", "rv", "rv", "rv", "se2", "se2", "se3", "cmp", "cmp", "rs"};
         std::string space = g.pick(spaces);
+        if (space == "rs" && !sp.directed)
+            space = "se2";  // the statement ranges over Dubins / Reeds-Shepp for direction-aware planners only
         w["space"] = space;
         int dim = 2, pdim = 2;
         if (space == "rv")
@@ -260,6 +269,8 @@ namespace
         {
             QP qp;
             int ns = g.chance(0.75) ? 1 : (int)g.range(2, 3);
+            if (planner == "LBTRRT" || planner == "LazyLBTRRT")
+                ns = 1;  // documented: "multiple start states - currently not supported" (refused with INVALID_START)
             for (int i = 0; i < ns; i++)
                 qp.starts.push_back(rndPos());
             int ng = g.chance(0.7) ? 1 : (int)g.range(2, 3);
@@ -335,7 +346,8 @@ namespace
             Json starts = Json::array();
             for (auto &s : qps[(size_t)q].starts)
                 starts.push(genState(g, space, dim, lo, hi, s.data(), pdim));
-            if (allowInvalidStarts && !obst.empty() && g.chance(0.12))
+            bool singleStartOnly = planner == "LBTRRT" || planner == "LazyLBTRRT";
+            if (allowInvalidStarts && !singleStartOnly && !obst.empty() && g.chance(0.12))
             {
                 // an invalid start (inside an obstacle) and/or an out-of-bounds start among the starts
                 const world::Obst &o = obst[g.below(obst.size())];
@@ -347,7 +359,7 @@ namespace
                     starts = Json::array();  // every start invalid
                 starts.items().insert(starts.items().begin() + (long)g.below(starts.size() + 1), bad);
             }
-            if (allowInvalidStarts && g.chance(0.05))
+            if (allowInvalidStarts && !singleStartOnly && g.chance(0.05))
             {
                 double p[3] = {hi + 0.3 * L, lo - 0.1 * L, lo};
                 starts.items().insert(starts.items().begin(), genState(g, space, dim, lo, hi, p, pdim));
@@ -363,6 +375,8 @@ namespace
             goal["type"] = gt;
             static const double thrs[] = {0.0, 1e-3, 0.01, 0.02, 0.05, 0.1, 0.3};
             double thr = g.pick(thrs) * L;
+            if (thr == 0.0)
+                thr = 2.220446049250313e-16;  // the library's own default for setGoalState (with 0 the region is empty)
             if (gt == "region" && thr < 0.01 * L)
                 thr = 0.03 * L;
             goal["threshold"] = thr;
@@ -389,13 +403,30 @@ namespace
         return G;
     }
 
-    Json genParams(sim::Rng &g, const Specs &sp, double L)
+    // configurations the generator does not produce, with the reason (all are library warts outside the listed
+    // properties, sighted by this harness and recorded in DESIGN.md App. B):
+    //  * EITstar/EIRMstar use_k_nearest=0: setup() dereferences a sampler that does not exist yet (null deref in
+    //    RandomGeometricGraph::computeRadius)
+    bool excludedParam(const std::string &planner, const std::string &n)
+    {
+        if ((planner == "EITstar" || planner == "EIRMstar") && n == "use_k_nearest")
+            return true;
+        //  * RRT* family ordered_sampling=1 without informed sampling / sample rejection: solve() wraps a null informed
+        //    sampler in OrderedInfSampler (null deref in its constructor)
+        if (n == "ordered_sampling")
+            return true;
+        return false;
+    }
+
+    Json genParams(sim::Rng &g, const std::string &planner, const Specs &sp, double L)
     {
         Json p = Json::object();
         for (auto &kv : sp.params)
         {
             const std::string &n = kv.first;
             const std::string &r = kv.second;
+            if (excludedParam(planner, n))
+                continue;
             if (n == "range" || n == "max_dist_near")
             {
                 if (g.chance(0.5))
@@ -475,9 +506,9 @@ public:
     {
         return o.thorough() ? 900 : 45;
     }
-    int cpuLimit(const sim::Options &) const override
+    int cpuLimit(const sim::Options &o) const override
     {
-        return 40;
+        return o.thorough() ? 30 : 10;  // a running solve is abandoned (inconclusive) well before: see cpuBudget
     }
     void init(const sim::Options &) override
     {
@@ -488,7 +519,7 @@ public:
         auto w = world::build(d);
         for (auto &info : planners::geometric())
         {
-            auto p = planners::makeGeometric(info.name, w->si, "");
+            auto p = planners::makeGeometric(info.name, w->si);
             Specs s;
             const auto &ps = p->getSpecs();
             s.recognizedGoal = (int)ps.recognizedGoal;
@@ -549,14 +580,14 @@ public:
         plan["kind"] = "plan";
         plan["planner"] = planner;
         int nq = o.prop == "C03" ? 2 : 1;
-        GenWorld G = genWorld(g, sp, nq, o.prop != "C04");
+        GenWorld G = genWorld(g, planner, sp, nq, o.prop != "C04");
         plan["world"] = G.world;
         Json qs = Json::array();
         for (auto &q : G.queries)
             qs.push(q);
         plan["queries"] = qs;
         double L = G.world.getd("hi") - G.world.getd("lo");
-        plan["params"] = genParams(g, sp, L);
+        plan["params"] = genParams(g, planner, sp, L);
         static const char *nns[] = {"", "", "gnat", "gnat_nts", "linear", "sqrt"};
         plan["nn"] = g.pick(nns);
         plan["ompl_seed"] = (long)g.range(1, 2000000000);
@@ -587,6 +618,13 @@ public:
         plan["objective"] = obj;
 
         Json ops = Json::array();
+        if (o.prop == "C03" && planner == "LazyLBTRRT" && j >= 4)
+        {
+            // known-broken planner (known_findings.json): its hangs would eat the budget of the enumeration, so it is
+            // sampled at k = 0..3 only
+            plan["ops"] = ops;
+            return plan;
+        }
         auto solve = [&](long k) {
             Json op = Json::object();
             op["op"] = "solve";
@@ -650,10 +688,12 @@ public:
                     simple("clear");
                     solve(g.range(0, budget / 2));
                 }
-                else if (u < 0.9)
-                    simple("clearsolutions");
                 else
-                    simple("setup");
+                    simple("getdata");
+                // (pdef->clearSolutionPaths() between solves is likewise outside the quantified calls: AIT* dereferences
+                // a null vertex and PDST reports "Exact solution" without re-adding a path after it)
+                // (a second setup() is not among the calls the statement quantifies over: projection-based planners
+                // terminate in Grid::setDimension and EIT* frees live queue entries when set up twice)
             }
         }
         plan["ops"] = ops;
@@ -662,6 +702,14 @@ public:
 
     sim::CaseResult run(const sim::Options &o, const Json &plan) override;
 
+    std::string crashContext(const Json &plan) const override
+    {
+        return " planner=" + plan.gets("planner");
+    }
+    bool judgesCrashes(const sim::Options &o) const override
+    {
+        return o.prop == "C03";  // "does not crash" is C03's clause; C01/C04 judge what solve() reports
+    }
     void atChildExit(Json &e) override
     {
         auto &l = world::ledger();
@@ -672,6 +720,10 @@ public:
     void judgeExit(const sim::Options &o, const Json &plan, sim::CaseResult &r, const Json &e) override
     {
         if (o.prop != "C03" || e.isNull())
+            return;
+        // a solve() that refused its configuration with a documented ompl::Exception left through the exception
+        // path (planners are not exception safe): what it leaks there is not an interruption leak and is not judged
+        if (r.info.has("solve_exception"))
             return;
         std::string pl = plan.gets("planner");
         r.info["live_states_at_exit"] = e["live_states"];
@@ -850,8 +902,13 @@ namespace
             if (std::fabs(sol.difference_ - d) > 1e-9 * scale)
             {
                 c.res.violate(P + ".approximate-difference-mismatch" + sfx(c),
-                              when + fmt(": approximate solution reports difference %.9g, last state is %.9g from the goal",
-                                         sol.difference_, d));
+                              when + fmt(": approximate solution reports difference %.9g, last state is %.9g from the goal "
+                                         "(path has %zu states; its first state is %.9g from the goal)",
+                                         sol.difference_, d, v.size(), [&] {
+                                             double d0 = 0;
+                                             q.pdef->getGoal()->isSatisfied(v.front(), &d0);
+                                             return d0;
+                                         }()));
                 return;
             }
             c.outcomes.insert("approx");
@@ -867,16 +924,19 @@ namespace
                     return;
                 }
             world::SegmentVerdict sv = world::denseCheck(*c.w, v);
+            // (a vertex inside a sub-resolution obstacle is not by itself against the statement: sub-segmenting planners
+            // such as PDST legitimately place vertices between resolution points; the stretch clause below and, for
+            // whitelisted planners, the pairwise re-check - which validates every vertex - are what the statement asks)
             if (sv.vertexInvalid)
-            {
-                c.res.violate(P + ".path-vertex-invalid" + sfx(c), when + fmt(": path state %zu of %zu is invalid", sv.badVertex, v.size()));
-                return;
-            }
+                c.res.probes["path-vertex-inside-sub-resolution-obstacle"]++;
             if (sv.worstRunSteps >= 2.0)
             {
                 c.res.violate(P + ".invalid-stretch" + sfx(c),
-                              when + fmt(": motion %zu of the path stays in invalid space for %.2f resolution steps (n=%u)",
-                                         sv.worstSegment, sv.worstRunSteps, sv.worstN));
+                              when + fmt(": motion %zu of the path stays in invalid space for %.2f resolution steps (n=%u; "
+                                         "checkMotion forward=%d reverse=%d)",
+                                         sv.worstSegment, sv.worstRunSteps, sv.worstN,
+                                         (int)c.w->si->checkMotion(v[sv.worstSegment], v[sv.worstSegment + 1]),
+                                         (int)c.w->si->checkMotion(v[sv.worstSegment + 1], v[sv.worstSegment])));
                 return;
             }
             if (sv.worstRunSteps > 0)
@@ -1034,7 +1094,7 @@ sim::CaseResult PlanSim::run(const sim::Options &o, const Json &plan)
             if (ob2)
                 qs.back()->pdef->setOptimizationObjective(ob2);
         }
-        auto planner = planners::makeGeometric(c.planner, c.w->si, plan.gets("nn"));
+        auto planner = planners::makeGeometric(c.planner, c.w->si);
         for (auto &kv : plan["params"].members())
         {
             planner->params().setParam(kv.first, kv.second.s());
@@ -1047,6 +1107,7 @@ sim::CaseResult PlanSim::run(const sim::Options &o, const Json &plan)
         try
         {
             planner->setup();
+            planners::applyNearestNeighbors(c.planner, planner.get(), plan.gets("nn"));
         }
         catch (ompl::Exception &ex)
         {
@@ -1056,7 +1117,8 @@ sim::CaseResult PlanSim::run(const sim::Options &o, const Json &plan)
             c.outcomes.insert("setup-refused");
         }
         const auto &ops = plan["ops"].items();
-        long solves = 0, firedSolves = 0, firedAfterSolution = 0;
+        long solves = 0, firedSolves = 0, firedAfterSolution = 0, validAtFire = 0;
+        const long stepBudget = o.thorough() ? 20000000 : 4000000;  // validity calls per solve
         std::set<std::string> opKinds;
         bool freshQuery = true;  // no solve yet on the current query since it was (re)installed
         std::vector<const ob::State *> foreign;  // start/goal states of the previous query
@@ -1071,26 +1133,47 @@ sim::CaseResult PlanSim::run(const sim::Options &o, const Json &plan)
             {
                 Ptc ptc;
                 ptc.k = op.geti("k");
+                ptc.validCalls = &c.w->validCalls;
+                ptc.validAtFire = &validAtFire;
+                ptc.cpuBudget = c.w->cpuBudget = o.thorough() ? 15.0 : 4.0;
                 auto before = q.pdef->getSolutions();
                 ob::PlannerSolution topBefore(nullptr);
                 bool had = q.pdef->getSolution(topBefore);
                 ob::PlannerStatus st;
+                c.w->validBudget = c.w->validCalls.load() + stepBudget;
+                world::ledger().cpuBudget = c.w->cpuBudget;
+                world::ledger().armed = true;
                 try
                 {
                     st = planner->solve(ptc.make());
+                    c.w->validBudget = -1;
+                    world::ledger().armed = false;
                 }
                 catch (StopSolve &)
                 {
                     res.violate(P + ".unbounded-return" + sfx(c),
                                 when + ": solve() evaluated the termination condition 10^4 more times after it became true");
-                    // the planner is in an undefined state now: leave without destroying anything
                     res.trace = c.h;
-                    fflush(nullptr);
-                    return res;
+                    sim::finishCaseNow(res);  // the planner was abandoned mid-solve: no teardown, no exit accounting
+                }
+                catch (world::BudgetExhausted &)
+                {
+                    if (ptc.fired && c.w->validCalls.load() - validAtFire > 1000000)
+                        res.violate(P + ".unbounded-return" + sfx(c),
+                                    when + ": more than 10^6 validity checks after the termination condition became true");
+                    else
+                        res.inconclusive = true;
+                    res.probes["step-budget-exhausted"]++;
+                    res.trace = c.h;
+                    sim::finishCaseNow(res);
                 }
                 catch (ompl::Exception &ex)
                 {
-                    res.violate(P + ".exception-from-solve" + sfx(c), when + ": ompl::Exception: " + ex.what());
+                    // documented refusal of a configuration (e.g. informed sampling with a non-sampleable goal):
+                    // nothing was promised for this input, the case ends unjudged
+                    res.probes["solve-refused-configuration(ompl::Exception)"]++;
+                    res.info["solve_exception"] = ex.what();
+                    c.outcomes.insert("refused");
                     break;
                 }
                 solves++;
@@ -1303,6 +1386,8 @@ sim::CaseResult PlanSim::run(const sim::Options &o, const Json &plan)
         info["paths_judged"] = Json(c.judgedPaths);
         if (res.info.has("setup_exception"))
             info["setup_exception"] = res.info["setup_exception"];
+        if (res.info.has("solve_exception"))
+            info["solve_exception"] = res.info["solve_exception"];
         res.info = info;
         c.h = sim::hashU64(c.h, (uint64_t)c.w->validCalls.load());
         // teardown in the order an application would: planner, queries, world
